@@ -431,6 +431,19 @@ func runCheck(id, tier, only string, keep bool) int {
 			mu.Lock()
 			defer mu.Unlock()
 			b, rerr := os.ReadFile(out)
+			if rerr != nil && j.Race {
+				// the free-running worker died before reporting: a Go runtime fatal error about
+				// concurrent map access, or a panic escaping from a goroutine the library started,
+				// is a finding of the pass, not an infrastructure failure
+				if what := crashFinding(log); what != "" {
+					key := "race:crash:" + what
+					rep := vrep.Report{Property: id, Harness: j.Harness, Shard: u.shard, NViolations: 1, Bounds: map[string]interface{}{}}
+					rep.Violations = append(rep.Violations, vrep.Violation{Key: key, What: "free-running pass crashed: " + what,
+						Replay: vrep.ReplayFile{Property: id, Package: j.Pkg, Harness: j.Harness, Tier: tier, Params: parseParams(j.Params), Observation: tail(log, 60), Key: key, Race: true}})
+					b, _ = json.Marshal(rep)
+					rerr = nil
+				}
+			}
 			if rerr != nil {
 				results[u.ji].errs = append(results[u.ji].errs, fmt.Sprintf("%s shard %d: no report (%v)\n%s", j.Harness, u.shard, err, tail(log, 40)))
 				return
@@ -574,6 +587,19 @@ func raceSummary(log string) string {
 
 // raceKey identifies a race by the first repository frame of each of its two
 // accesses (function names only, no addresses).
+// crashFinding extracts the first line of a runtime fatal error or an uncaught panic from a
+// worker log ("" if the log shows neither).
+func crashFinding(log string) string {
+	for _, ln := range strings.Split(log, "\n") {
+		ln = strings.TrimSpace(ln)
+		if strings.HasPrefix(ln, "fatal error: concurrent map") || strings.HasPrefix(ln, "panic: sync:") ||
+			strings.HasPrefix(ln, "fatal error: all goroutines are asleep") || strings.HasPrefix(ln, "fatal error: sync:") {
+			return ln
+		}
+	}
+	return ""
+}
+
 func raceKey(log string) string {
 	var fr []string
 	blocks := strings.Split(log, "\n\n")
